@@ -57,6 +57,65 @@ theorem removeChild_effect' (s s' : St) (p c c' : Nat) (hi : Inv s) (h : step s 
   have := C12.root_has_no_parent s' hi' cn (by simp [St.roots, hdet])
   rw [hid] at this; exact this
 
+/-- `replaceChild(newChild, oldChild)` with two different nodes: `oldChild` is handed back, and the parent's children
+    afterwards are its former children without `newChild` (if it was among them it is first removed), in their order,
+    with `newChild` standing where `oldChild` stood -/
+theorem replaceChild_effect (s s' : St) (p new old r : Nat) (hi : Inv s) (hne : new ≠ old)
+    (h : step s (.replaceChild p new old) = (s', .node r)) :
+    ∃ pn pn', s.find p = some pn ∧ s'.find p = some pn' ∧ r = old ∧
+      pn'.kids.map (·.id) = ((pn.kids.map (·.id)).filter (· != new)).map (fun x => if x = old then new else x) := by
+  simp only [step] at h
+  cases hp : s.find p with
+  | none => simp [hp] at h
+  | some pn =>
+    have hno : (new == old) = false := by simpa using hne
+    simp only [hp, hno, Bool.false_eq_true, if_false] at h
+    cases hrm : removeChild s p old with
+    | mk s1 res1 =>
+      simp only [hrm] at h
+      cases res1 with
+      | node x =>
+        simp only at h
+        cases hin : insertChild s1 p new
+            ((((pn.kids.dropWhile (·.id != old)).drop 1).filter (·.id != new)).head?.map (·.id)) with
+        | mk s2 res2 =>
+          simp only [hin] at h
+          cases res2 with
+          | node y =>
+            simp only [Prod.mk.injEq, Res.node.injEq] at h
+            obtain ⟨rfl, rfl⟩ := h
+            obtain ⟨pn0, pn1, cn, hp0, hc0, hp1, hk1, _⟩ := removeChild_effect s s1 p old x hi hrm
+            rw [hp] at hp0; cases hp0
+            have hi1 : Inv s1 := by
+              have := C12.inv_step s (.removeChild p old) hi
+              simp only [step, hrm] at this; exact this
+            obtain ⟨pn1', pn2, hp1', hp2, hk2⟩ := insertChild_effect s1 s2 p new y _ hi1 hin
+            rw [hp1] at hp1'; cases hp1'
+            refine ⟨pn, pn2, rfl, hp2, rfl, ?_⟩
+            rw [hk2, hk1, ref_ids]
+            have hnd := kids_ids_nodup s hi p pn hp
+            -- old is a child of p (removeChild succeeded): it is in the list
+            have hmem : old ∈ pn.kids.map (·.id) := by
+              obtain ⟨pn', s1', x', hp', _, hany, _, _⟩ := removeChild_ok_shape s s1 p old x hrm
+              rw [hp] at hp'; cases hp'
+              obtain ⟨k, hk, hkc⟩ := List.any_eq_true.mp hany
+              exact List.mem_map.mpr ⟨k, hk, by simpa using hkc⟩
+            -- the reference is not the new child itself
+            have hadj : ∀ (ro : Option Nat), (∀ i, ro = some i → i ≠ new) → adjustRef pn1 new ro = ro := by
+              intro ro hro
+              cases ro with
+              | none => rfl
+              | some i =>
+                have : (i == new) = false := by simpa using hro i rfl
+                simp [adjustRef, this]
+            rw [hadj]
+            · exact replace_ids old new hne _ hnd hmem
+            · intro i hi'
+              have := head?_mem_of hi'
+              simpa using (List.mem_filter.mp this).2
+          | _ => simp at h
+      | _ => simp at h
+
 end XmlRs.C13
 
 namespace XmlRs.C13
